@@ -275,7 +275,8 @@ EXTRA_TEXT = {
            "coeff[j] sin(2j zeta) and 1 +- sum 2j coeff[j] cos(2j zeta) (symbolic evaluation with std::complex over "
            "polynomials, order 6 unrolled), and x, y are a1 k0 times their parts with the hemisphere signs. (H2) Scale homogeneity of TransverseMercator and TransverseMercatorExact Forward/Reverse: x, y, k of degree 1 in "
            "k0 and gamma, lat, lon of degree 0 on every path (a scale applied in one branch only is a mixed degree).",
-    'C11': " (H2) Scale homogeneity of the outputs of PolarStereographic and LambertConformalConic Forward/Reverse. (SYMM) "
+    'C11': " (LIM1) the special arm of `v != 0 ? general : special` equals the limit of the general arm (Laurent expansion of the "
+           "symbolically evaluated body) at the 7 sites of the conic projections where that is elementary. (H2) Scale homogeneity of the outputs of PolarStereographic and LambertConformalConic Forward/Reverse. (SYMM) "
            "symmetry of the divided-difference helpers of LambertConformalConic and AlbersEqualArea. (ECONST) derived ellipsoid "
            "constants of the seven constructors.",
     'C10': " (RW1) In the chain of literal rewrites of DMS::Decode a pattern that contains the product character of other "
